@@ -53,14 +53,15 @@ AllBrackets == {"(", "[", "{"}
 
 (* counts: [shown, ip, fd, fp] denotes ip.fp with fd fractional digits; not shown = 1 *)
 Pow10(n) == IPow(10, n)
-IsCount(c) == /\ c.ip \in Nat /\ c.fd \in 0..3 /\ c.fp \in 0..(Pow10(c.fd) - 1)
+IsCount(c) == /\ c.ip \in Nat /\ c.fd \in 0..4 /\ c.fp \in 0..(Pow10(c.fd) - 1)
               /\ (c.ip > 0 \/ c.fp > 0)
               /\ (~c.shown => (c.ip = 1 /\ c.fd = 0))
 CountVal(c) == Norm(<<c.ip * Pow10(c.fd) + c.fp, Pow10(c.fd)>>)
 Pad(n, w) == IF w = 0 THEN ""
              ELSE IF w = 1 THEN ToString(n)
              ELSE IF w = 2 THEN (IF n < 10 THEN "0" ELSE "") \o ToString(n)
-             ELSE (IF n < 10 THEN "00" ELSE IF n < 100 THEN "0" ELSE "") \o ToString(n)
+             ELSE IF w = 3 THEN (IF n < 10 THEN "00" ELSE IF n < 100 THEN "0" ELSE "") \o ToString(n)
+             ELSE (IF n < 10 THEN "000" ELSE IF n < 100 THEN "00" ELSE IF n < 1000 THEN "0" ELSE "") \o ToString(n)
 CountText(c) == IF ~c.shown THEN ""
                 ELSE ToString(c.ip) \o (IF c.fd = 0 THEN "" ELSE "." \o Pad(c.fp, c.fd))
 NoCount == [shown |-> FALSE, ip |-> 1, fd |-> 0, fp |-> 0]
